@@ -1,0 +1,75 @@
+//go:build verif
+
+package tasks
+
+// Contracts for fvc (see /verif/DESIGN.md). Comment-only file.
+// The job controller works against these interfaces; their contracts are ASSUMED here (the Pod-backed
+// implementation in podtaskexecutor is related to them in that package's contract file).
+
+// A Task is an immutable snapshot of a task object: its observable attributes are functions of the value.
+//@ pure taskRefOf(t Task) execution.TaskRef
+//@ pure taskName(t Task) string
+//@ pure taskDeletionTs(t Task) *metav1.Time
+//@ pure taskOwners(t Task) []metav1.OwnerReference
+//@ axiom ref-name-is-task-name: forall t Task :: taskRefOf(t).Name == taskName(t)
+
+//@ extern func iface github.com/furiko-io/furiko/pkg/execution/tasks.Task.GetTaskRef
+//@   params recv
+//@   ensures result == taskRefOf(recv)
+//@ extern func iface github.com/furiko-io/furiko/pkg/execution/tasks.Task.GetName
+//@   params recv
+//@   ensures result == taskName(recv)
+//@ extern func iface github.com/furiko-io/furiko/pkg/execution/tasks.Task.GetDeletionTimestamp
+//@   params recv
+//@   ensures result == taskDeletionTs(recv)
+//@ extern func iface github.com/furiko-io/furiko/pkg/execution/tasks.Task.GetOwnerReferences
+//@   params recv
+//@   ensures result == taskOwners(recv)
+//@ extern func iface github.com/furiko-io/furiko/pkg/execution/tasks.Task.GetKind
+//@   params recv
+
+// Executors are per-Job views of the task cache and the task API.
+//@ pure executorJob(e Executor) *execution.Job
+//@ pure listerJob(l TaskLister) *execution.Job
+//@ pure clientJob(c TaskClient) *execution.Job
+//@ extern func iface github.com/furiko-io/furiko/pkg/execution/tasks.ExecutorFactory.ForJob
+//@   params recv, rj
+//@   ensures result1 == nil ==> result0 != nil && executorJob(result0) == rj
+//@ extern func iface github.com/furiko-io/furiko/pkg/execution/tasks.Executor.Lister
+//@   params recv
+//@   ensures result != nil && listerJob(result) == executorJob(recv)
+//@ extern func iface github.com/furiko-io/furiko/pkg/execution/tasks.Executor.Client
+//@   params recv
+//@   ensures result != nil && clientJob(result) == executorJob(recv)
+
+// The task cache: taskCached(job, name) is the cached task object of that name, or nil; the cache is a snapshot that
+// stays fixed during one reconciler pass. A lookup either finds it or fails with NotFound (errclass 404) or another error.
+//@ pure taskCached(rj *execution.Job, name string) Task
+//@ extern func iface github.com/furiko-io/furiko/pkg/execution/tasks.TaskLister.Get
+//@   params recv, name
+//@   ensures result1 == nil ==> result0 != nil && result0 == taskCached(listerJob(recv), name) && taskName(result0) == name
+//@   ensures result1 != nil ==> result0 == nil
+//@   ensures errclass(result1) == 404 ==> taskCached(listerJob(recv), name) == nil
+
+// Task API effects. delReq / forceReq: names for which a (forced) delete request was issued; any request may fail.
+//@ ghost var delReq Array[string]bool
+//@ ghost var forceReq Array[string]bool
+//@ extern func iface github.com/furiko-io/furiko/pkg/execution/tasks.TaskClient.Delete
+//@   params recv, ctx, name, force
+//@   modifies delReq, forceReq
+//@   ensures delReq == store(old(delReq), name, true)
+//@   ensures forceReq == (force ? store(old(forceReq), name, true) : old(forceReq))
+
+// Create log: request i (0 <= i < tcN) asked for attempt tcRetry[i] of index hash tcHash[i] of Job tcJob[i]; tcOK[i] iff it succeeded.
+//@ ghost var tcN Int
+//@ ghost var tcJob Array[Int]*execution.Job
+//@ ghost var tcRetry Array[Int]Int
+//@ ghost var tcIndex Array[Int]execution.ParallelIndex
+//@ ghost var tcOK Array[Int]bool
+//@ extern func iface github.com/furiko-io/furiko/pkg/execution/tasks.TaskClient.CreateIndex
+//@   params recv, ctx, index
+//@   modifies tcN, tcJob, tcRetry, tcIndex, tcOK
+//@   ensures tcN == old(tcN) + 1 && tcJob == store(old(tcJob), old(tcN), clientJob(recv)) && tcRetry == store(old(tcRetry), old(tcN), index.Retry)
+//@        && tcIndex == store(old(tcIndex), old(tcN), index.Parallel) && tcOK == store(old(tcOK), old(tcN), result1 == nil)
+//@   ensures result1 == nil ==> result0 != nil
+//@   ensures result1 != nil ==> result0 == nil
